@@ -33,10 +33,13 @@ CellContains(m, x, k, ctn) ==
   \/ k \in ctn
   \/ (ctn = {} /\ NearCell(m.kind, CellPts(m, k), x))
 
-FindOK(m, pts, res, err, ct) ==
-  IF err = ""
-  THEN \A n \in DOMAIN pts : CellContains(m, pts[n], res[n], ct[n])   \* found: the cell contains the point
-  ELSE \E n \in DOMAIN pts : ct[n] = {}                                \* raised (any type): some point is outside
+\* found: every returned cell contains its point
+FoundCellContainsPoint(m, pts, res, err, ct) ==
+  (err = "") => \A n \in DOMAIN pts : CellContains(m, pts[n], res[n], ct[n])
+\* raised (any exception type): some point lies in no closed cell
+BoundaryPointsAreFound(pts, err, ct) ==
+  (err # "") => \E n \in DOMAIN pts : ct[n] = {}
+FindOK(m, pts, res, err, ct) == FoundCellContainsPoint(m, pts, res, err, ct) /\ BoundaryPointsAreFound(pts, err, ct)
 \* points clearly outside (by more than the margin) must make the call raise
 FarOutside(m, x, ctn) == ctn = {} /\ NearCells(m, x) = {}
 RaisesOutside(m, pts, err, ct) ==
@@ -95,6 +98,27 @@ SplitMesh(m) ==
   [kind |-> IF m.kind = "quad" THEN "tri" ELSE "tet", p |-> m.p,
    t |-> [c \in 1..(Len(tb) * nt) |->
             LET s == ((c - 1) \div nt) + 1  k == ((c - 1) % nt) + 1 IN Sub(m.t[k], tb[s])]]
+
+\* A point is ROBUSTLY located if no floating-point round-off can influence the code's inside test for it:
+\* it is strictly interior to one of the simplices the code tests (barycentric coordinates >= 2^-31, far above
+\* round-off), or it lies in a closed simplex whose determinant is a power of two (the inverse affine map and
+\* the reference coordinates of a dyadic point are then computed exactly in binary floating point).  Points
+\* that lie only on the boundary of simplices with other determinants are subject to the round-off of the
+\* inverse map, which can exceed the machine-eps slack of the test (known finding KF-C14-finder-eps-roundoff).
+IsPow2(n) == n >= 1 /\ \E k \in 0..30 : n = 2 ^ k
+StrictlyInsideSimplex(V, x) ==
+  LET d0 == OrientV(V) IN d0 # 0 /\ \A i \in DOMAIN V : Sgn(d0) * OrientV([V EXCEPT ![i] = x]) > 0
+CodeSimplices(m) == IF m.kind \in {"line", "tri", "tet"} THEN m ELSE SplitMesh(m)
+Robust(m, x, ctn) ==
+  IF m.kind = "line" THEN ctn # {}                                     \* no arithmetic in the 1-D finder
+  ELSE LET sm == CodeSimplices(m) IN
+       \E c \in DOMAIN sm.t :
+          LET V == CellPts(sm, c) IN
+          \/ StrictlyInsideSimplex(V, x)
+          \/ (IsPow2(Abs(OrientV(V))) /\ InClosedSimplex(V, x))
+\* raising is a violation beyond doubt when every point is robustly located
+PointsOfTheDomainAreFound(m, pts, err, ct) ==
+  (err # "") => \E n \in DOMAIN pts : ~Robust(m, pts[n], ct[n])
 
 \* line finder -- mesh_line_1.py:79-94
 FindLineImpl(m, pts) ==
